@@ -22,6 +22,12 @@
 (* New and re-fits, so a row / model / width obtained after a re-fit must  *)
 (* equal the one a fresh estimator gives for the same fit batch and item - *)
 (* nothing of an earlier fit or transform may leak into a later one.       *)
+(* Reconf (set_params: the existing object is given the parameters of      *)
+(* another configuration, as a parameter sweep without clone does) leaves  *)
+(* the object unfitted for the purposes of the protocol: after the next    *)
+(* Fit it must answer like a fresh estimator of that configuration (the    *)
+(* trace encodes the configuration into the item identifiers, so the memo  *)
+(* of one configuration is never compared with another's).                 *)
 (* An OBSERVATION of a call carries: the returned row classes, the width,  *)
 (* whether fit returned the estimator, whether arguments / constructor     *)
 (* parameter objects / fitted attributes / the temporary directory were    *)
@@ -73,14 +79,14 @@ Clauses(s, c, o) ==
       [] c.op = "transform" -> (IF s.phase # "fitted" THEN {"transform_before_fit"} ELSE {})
                                \cup (IF ~o.model_ok THEN {"transform_changed_the_model"} ELSE {})
                                \cup RowClauses(s, s.fb, c, o)
-      [] c.op = "new" -> {}
+      [] c.op \in {"new", "reconf"} -> {}
       [] OTHER -> {})
 After(s, c, o) ==
    CASE o.raised -> s
      [] c.op \in {"fit", "refit"} -> [s EXCEPT !.phase = "fitted", !.fb = c.b, !.models = Put(s.models, c.b, o.model)]
      [] c.op = "fit_transform" -> Learn([s EXCEPT !.phase = "fitted", !.fb = c.b, !.models = Put(s.models, c.b, o.model)], c.b, c, o)
      [] c.op = "transform" -> Learn(s, s.fb, c, o)
-     [] c.op = "new" -> [s EXCEPT !.phase = "new", !.fb = <<>>]
+     [] c.op \in {"new", "reconf"} -> [s EXCEPT !.phase = "new", !.fb = <<>>]
      [] OTHER -> s
 
 \* ---------------------------------------------------------------- generation of call histories
@@ -99,11 +105,13 @@ SetKnob(k) == /\ "knob" \in Ops /\ phase = "fitted" /\ Len(h) < MaxCalls
               /\ h' = Append(h, Call("knob", <<>>, k)) /\ UNCHANGED <<phase, fb>>
 New == /\ "new" \in Ops /\ phase = "fitted" /\ Len(h) < MaxCalls - 1
        /\ h' = Append(h, Call("new", <<>>, 0)) /\ phase' = "new" /\ fb' = <<>>
+Reconf(k) == /\ "reconf" \in Ops /\ phase = "fitted" /\ Len(h) < MaxCalls - 1
+             /\ h' = Append(h, Call("reconf", <<>>, k)) /\ phase' = "new" /\ fb' = <<>>
 Next == \/ \E b \in Batches : Fit(b) \/ FitTransform(b) \/ Transform(b)
-        \/ Refit \/ New \/ \E k \in 1..NKnobs : SetKnob(k)
+        \/ Refit \/ New \/ (\E k \in 1..NKnobs : Reconf(k)) \/ \E k \in 1..NKnobs : SetKnob(k)
 Spec == Init /\ [][Next]_vars
 \* the life cycle itself: transform is only generated on a fitted estimator
-LifeCycle == \A i \in DOMAIN h : h[i].op \in {"transform", "refit", "knob", "new"} =>
-                \E j \in 1..(i - 1) : h[j].op \in {"fit", "fit_transform"} /\ \A k \in (j + 1)..(i - 1) : h[k].op # "new"
+LifeCycle == \A i \in DOMAIN h : h[i].op \in {"transform", "refit", "knob", "new", "reconf"} =>
+                \E j \in 1..(i - 1) : h[j].op \in {"fit", "fit_transform"} /\ \A k \in (j + 1)..(i - 1) : h[k].op \notin {"new", "reconf"}
 EmitInv == IF EMIT /\ Len(h) = MaxCalls THEN PrintT(ToJson([h |-> h])) ELSE TRUE
 ====
